@@ -32,6 +32,10 @@ def _NONNULL(cfg):
     return [(cfg, None, {"backend": b, "md10": True, "cap": {"quick": 120, "thorough": 1400}}) for b in ("cms_aod", "cms_miniaod")]
 
 
+# calls of supplied (and built-in) C++ functions with one argument too many / too few or in the other call style
+_BADCALLS = ("MCGrafts_userfn.cfg", None, {"fnmd": True, "grafts": ("userfn_", "builtin_fn_"), "cap": {"quick": 300, "thorough": 3000}})
+
+
 def _first_math(t):
     if t["k"] == "Math":
         return t["a"]
@@ -92,13 +96,15 @@ SPECS = {
     ),
     "C06": pcheck.PSpec(
         "C06",
-        clauses=["Accepts", "Compiles", "BookingFault", "RowsMatch", "SpuriousFault", "FaultMissed", "RequestsAdmissible",
+        clauses=["Accepts", "Refuses", "Compiles", "BookingFault", "RowsMatch", "SpuriousFault", "FaultMissed", "RequestsAdmissible",
                  "LibrariesRequested", "TokensPerUse"],
         profiles={t: [("MCQueryGen_c06_%s.cfg" % b, None, {"backend": b, "declv": "none"}) for b in pcheck.ALL_BACKENDS]
                      + [("MCQueryGen_c06z_%s.cfg" % b, None, {"backend": b, "declv": "fresh_Z"}) for b in pcheck.ALL_BACKENDS]
                      + [("MCQueryGen_c06_%s.cfg" % b, None, {"backend": b, "declv": "replace_A"}) for b in pcheck.ALL_BACKENDS]
                      + [("MCQueryGen_c06z_%s.cfg" % b, None, {"backend": b, "declv": v, "cap": {"quick": 60, "thorough": 2000}})
                         for b in pcheck.ALL_BACKENDS for v in ("both_za", "both_az")]
+                     # malformed collection declarations and collection calls with the wrong number / type of arguments
+                     + [("MCGrafts_c06.cfg", None, {"grafts": ("badmeta_collection", "collcall_"), "cap": {"quick": 240, "thorough": 2400}})]
                   for t in ("quick", "thorough")},
         events={"quick": 8, "thorough": 24},
         cap={"quick": 1000, "thorough": 6000},
@@ -116,12 +122,12 @@ SPECS = {
     ),
     "C11": pcheck.PSpec(
         "C11",
-        clauses=["Accepts", "Compiles", "BookingFault", "RowsMatch", "SpuriousFault", "SchemaMatches"],
-        profiles={"quick": [("MCQueryGen_userfn.cfg", None, {"fnmd": True}), ("MCQueryGen_userfn_d.cfg", None, {"fnmd": True}),
+        clauses=["Accepts", "Refuses", "Compiles", "BookingFault", "RowsMatch", "SpuriousFault", "SchemaMatches"],
+        profiles={"quick": [("MCQueryGen_userfn.cfg", None, {"fnmd": True}), ("MCQueryGen_userfn_d.cfg", None, {"fnmd": True}), _BADCALLS,
                             ("MCQueryGen_userfn_f.cfg", None, {"fnmd": True, "cap": {"quick": 210, "thorough": 2500}}),
                             ("MCQueryGen_userfn_e.cfg", None, {"fnmd": True, "cap": {"quick": 300, "thorough": 3000}}),
                             ("MCQueryGen_userfn_m.cfg", None, {"fnmd": True, "cap": {"quick": 160, "thorough": 160}})],
-                  "thorough": [("MCQueryGen_userfn_t.cfg", None, {"fnmd": True}),
+                  "thorough": [("MCQueryGen_userfn_t.cfg", None, {"fnmd": True}), _BADCALLS,
                                ("MCQueryGen_userfn_ft.cfg", None, {"fnmd": True, "cap": {"quick": 210, "thorough": 2500}}),
                                ("MCQueryGen_userfn_et.cfg", None, {"fnmd": True, "cap": {"quick": 300, "thorough": 3000}}),
                                ("MCQueryGen_userfn_m.cfg", None, {"fnmd": True, "cap": {"quick": 160, "thorough": 160}})]},
